@@ -2,8 +2,8 @@
    `Matrix3::{transpose, to_basic_rotation_id, from_basic_rotation_id}` on f32 BIT PATTERNS.
    Float comparisons are replaced by integer thresholds on the magnitude bits (DESIGN.md A7):
      |v| <= f32::EPSILON        iff  abs-bits <= 0x34000000                    (v not NaN)
-     |v| - 1.0 <= f32::EPSILON  iff  abs-bits <= 0x3F800001                    (v not NaN; the pinned test)
-     (|v| - 1.0).abs() <= EPS   iff  0x3F7FFFFE <= abs-bits <= 0x3F800001      (the repaired test)
+     (|v| - 1.0).abs() <= EPS   iff  0x3F7FFFFE <= abs-bits <= 0x3F800001      (v not NaN; the code since 66cfd56a)
+     |v| - 1.0 <= f32::EPSILON  iff  abs-bits <= 0x3F800001                    (the test before the repair)
    and every comparison with a NaN is false.  The thresholds are validated against the real function
    through `Vector3::to_normal_id` by `rbxverif attr-sweep` (all exponent boundaries, 2M random
    patterns; all 2^32 patterns with --thorough) and by the `vec3`/`rot` cases of the attr correspondence.
@@ -15,24 +15,26 @@ Definition F32_EPSILON_BITS : N := 0x34000000.      (* f32::EPSILON = 2^-23 *)
 Definition F32_ONE_PLUS_ULP : N := 0x3F800001.      (* 1 + 2^-23 *)
 Definition F32_ONE_MINUS_EPS : N := 0x3F7FFFFE.     (* 1 - 2^-23 *)
 
-(* fn approx_unit_or_zero(value: f32) -> Option<i32>      [as pinned]
+(* fn approx_unit_or_zero(value: f32) -> Option<i32>      [since /repo commit 66cfd56a]
      if value.abs() <= f32::EPSILON { Some(0) }
-     else if value.abs() - 1.0 <= f32::EPSILON { Some(1.0f32.copysign(value) as i32) }
+     else if (value.abs() - 1.0).abs() <= f32::EPSILON { Some(1.0f32.copysign(value) as i32) }
      else { None } *)
 Definition approx_unit_or_zero (v : f32) : option Z :=
   let a := f32_abs_bits v in
   if f32_is_nan v then None
   else if N.leb a F32_EPSILON_BITS then Some 0%Z
-  else if N.leb a F32_ONE_PLUS_ULP then Some (if f32_sign v then (-1)%Z else 1%Z)
+  else if N.leb F32_ONE_MINUS_EPS a && N.leb a F32_ONE_PLUS_ULP then Some (if f32_sign v then (-1)%Z else 1%Z)
   else None.
+(* name used while the repair was pending *)
+Definition approx_unit_or_zero_fixed : f32 -> option Z := approx_unit_or_zero.
 
-(* the same function with the second test repaired to (value.abs() - 1.0).abs() <= f32::EPSILON;
-   not used by the model, only by RotationFacts (what the repair would establish) *)
-Definition approx_unit_or_zero_fixed (v : f32) : option Z :=
+(* the function as it was before commit 66cfd56a (second test `value.abs() - 1.0 <= f32::EPSILON`, true for
+   every |value| <= 1 + ulp); not used by the model, only by the refutation witness in RotationFacts *)
+Definition approx_unit_or_zero_pinned (v : f32) : option Z :=
   let a := f32_abs_bits v in
   if f32_is_nan v then None
   else if N.leb a F32_EPSILON_BITS then Some 0%Z
-  else if N.leb F32_ONE_MINUS_EPS a && N.leb a F32_ONE_PLUS_ULP then Some (if f32_sign v then (-1)%Z else 1%Z)
+  else if N.leb a F32_ONE_PLUS_ULP then Some (if f32_sign v then (-1)%Z else 1%Z)
   else None.
 
 (* fn get_normal_id(position: u8, value: i32) -> Option<u8>   (local to to_normal_id) *)
@@ -43,8 +45,8 @@ Definition get_normal_id (position : N) (value : Z) : option N :=
   | _ => None
   end.
 
-(* Vector3::to_normal_id, parameterised by the approx function so that the repaired variant can be
-   stated; [to_normal_id] is the pinned instance *)
+(* Vector3::to_normal_id, parameterised by the approx function so that the pre-repair variant can be
+   stated; [to_normal_id] is the instance of the current code *)
 Definition to_normal_id_with (approx : f32 -> option Z) (v : vec3) : option N :=
   match approx (vx v), approx (vy v), approx (vz v) with
   | Some x, Some 0%Z, Some 0%Z => get_normal_id 0 x
